@@ -8,6 +8,42 @@ CHECKS = {
     text="TLC proves the letter algebra (Mul/Anti) against explicit Gaussian-integer matrices for every operator pair (N<=2 quick, N<=3 thorough), associativity, squares and that the bit kernels refine it; every edge of the Pauli-group Cayley graph (N<=3) plus TLC-simulated product chains (N=4..8) is replayed into Pauli.__matmul__/acq/ipow/acq_mat/batch_dot of both packages and every recorded result is judged by TLC against the specification.",
     note="Trusted: TLC, the 4-entry bits<->letters projection in harness/backend.py, JSON plumbing. Exhaustive for N<=3 on the code; N>3 sampled.",
     design="4/C01", technique="TLA+ Cayley-graph model (TLC exhaustive) + matrix grounding ASSUMEs + replay of every TLC edge into the code, trace validated by TLC"),
+ "C02": dict(
+    text="TLC grounds Rot(G,P) as exact conjugation ((1-iG)P(1+iG) = 2 Rot) in Gaussian-integer matrices and proves inverse/order-4/homomorphism theorems over the whole N<=2 group; every generator x every operator (all object kinds, masks on N=3) and every edge of the TLC Clifford-group walk is replayed into rotate_by/clifford_rotate/clifford_rotation_map of both packages; TLC judges every recorded result; TLC-simulated rotation sequences with appended inverse for N=3..5.",
+    note="Trusted: TLC, bits<->letters projection, mask construction from qubit lists. Exhaustive N<=2 (+masked N=3); N=3..5 sampled.",
+    design="4/C02", technique="TLA+ Clifford-group walk (TLC exhaustive, 11520 states) + matrix-grounded Rot + replay of TLC edges/behaviours, trace validated by TLC"),
+ "C03": dict(
+    text="TLC enumerates the whole Clifford group for N<=2 (24 / 11520 maps) as a walk by rotations and checks in every state that Apply is a phase-exact homomorphism fixing the listed generator images, preserves commutation and Hermiticity, and that the library's pauli_transform formula (transcribed) refines it; every reachable map x the whole Pauli group is replayed into transform_by / pauli_transform / embed / pauli_combine / ps0 (both packages), masks and embeddings on N=3, larger maps from TLC -simulate; TLC judges every record.",
+    note="Quick subsamples the 11520 N=2 maps by VERIF_SEED (thorough: all). Trusted: TLC, projection, JSON plumbing.",
+    design="4/C03", technique="TLA+ group walk with homomorphism invariants (TLC) + replay of every emitted map into the code, trace validated by TLC"),
+ "C04": dict(
+    text="The TLC walk carries the inverse map compositionally; invariants IsInverse / neutrality / associativity / anti-homomorphism hold in all 24 / 11520 states and on all 345600 edges; inverse() on every map and compose() along every walk edge (thorough; sampled in quick), arbitrary pairs/triples, identity_map, z2inv refusal of singular matrices are replayed into both packages, with operands snapshotted before/after and result freshness observed; TLC judges every record.",
+    note="Trusted: TLC, projection; freshness uses numpy.shares_memory / data_ptr from outside.",
+    design="4/C04", technique="TLA+ group walk carrying (m, m^-1) (TLC exhaustive) + replay of states/edges into compose/inverse, trace validated by TLC"),
+ "C05": dict(
+    text="TableauOK/DensityOK are evaluated by TLC on every tableau the library hands back: one-step closure over the complete valid tableau space for N<=2 (48 / 34560 tableaux in thorough; VERIF_SEED sample in quick) x every public state-changing call (rotations, masked rotations, map transforms, named gates, measurements, post-selections, copy, set_r), with the post-state also required to denote the group the semantics prescribes; TLC-simulated histories (MC_TabWalk, N=2..5) are replayed on one live object, steering coins to the outcome TLC chose. The abstract semantics is grounded in density matrices (Tr rho = 1, rho^2 = 2^-r rho) by MC_StabSem.",
+    note="Closure claim only in thorough. Standby/destabilizer phases are not constrained (never read into active rows).",
+    design="4/C05", technique="TLA+ signed-group semantics grounded in matrices (TLC) + one-step closure of the real code over all valid tableaux + replay of TLC-simulated histories, trace validated by TLC"),
+ "C06": dict(
+    text="SemMeasure (Born rule + projection on signed stabilizer groups) is grounded by TLC in density matrices for all 91 N=2 states x 32 observables x 2 outcomes; the real measure() is run on every tableau (N<=2 complete in thorough) x every signed observable, commuting lists, state arguments, under enumerated coin schedules until every outcome of non-zero probability is seen; TLC checks outcome possible, log2prob, post-state = projection, rank, repeatability, and that exactly the possible outcome vectors occur.",
+    note="Coins are steered by seeding numba's generator from outside (no hooks). Quick samples 1500 N=2 tableaux.",
+    design="4/C06", technique="TLA+ measurement semantics grounded in matrices (TLC) + exhaustive replay over tableaux x observables x coin branches, trace validated by TLC"),
+ "C07": dict(
+    text="Expect / Overlap / Prob set formulas are grounded by TLC against Tr(rho P), Tr(rho sigma) (all 91x91 pairs) and rho[b,b] with sum 1; expect() on lists, Paulis, monomials, polynomials with phases i/-i and dyadic Gaussian coefficients, expect(state) for pairs of states of every rank, get_prob for all bit strings, and the torch kernels are recorded on the N<=2 tableau space and N=3,4 walks; TLC judges values and that receiver/argument are bitwise unchanged.",
+    note="Mixed-receiver expect(state) is an explicit refusal (NotImplementedError) and accepted as such.",
+    design="4/C07", technique="TLA+ trace formulas grounded in matrices (TLC) + replay over the tableau space, trace validated by TLC"),
+ "C08": dict(
+    text="Entropy(S,A) = |A| - log2|S_A| is grounded by TLC against explicit partial traces (flat spectrum) for all 91 N=2 states, with region/complement symmetry and invariance under local rotations; entropy() is recorded for every tableau (N<=2) and TLC-simulated N=3..5 tableaux of every rank x all 2^N regions in three input forms (both packages); TLC judges every value.",
+    note="N<=2 entropies are 0/1; non-trivial mixed cases come from the N=3..5 samples.",
+    design="4/C08", technique="TLA+ entropy formula grounded in partial traces (TLC) + replay over tableaux x regions, trace validated by TLC"),
+ "C11": dict(
+    text="The textbook tables of H,S,X,Y,Z,CNOT (both orientations) are written in TLA+ and grounded by TLC in explicit matrices (H'=X+Z, S=diag(1,i), CNOT 0/1); the 24 valid one-qubit maps form a group. Every named gate, every placement in registers N<=4 (through the gate, a Circuit and a CliffordCircuit), all 24 C(k) with their placements, and the documented error cases are recorded from the code and judged by TLC. Finite and exhaustive.",
+    note="Complete for the finite tables; placements up to N=4.",
+    design="4/C11", technique="TLA+ gate tables grounded in matrices (TLC ASSUMEs) + exhaustive recording of the library's tables/placements, trace validated by TLC"),
+ "C12": dict(
+    text="to_state/to_map round trips on every valid map (N<=2, all rank arguments) are compared at representation level and against 'apply the map to |0..0>'; constructors (zero, one, GHZ, mixed, random bit/product/Clifford) N<=5 against the TLA+ constants grounded in matrices; dense to_qutip exports entry-wise against the sum of group-element matrices; stabilizer_state() on every ordered signed sub-list of stabilizer halves in four input formats, anticommuting lists must raise ValueError. Both packages; TLC judges every record.",
+    note="Dense exports are rounded to integers within 1e-5 after scaling by 2^N (float rounding is outside the model).",
+    design="4/C12", technique="TLA+ constructor/duality semantics (TLC) + replay over all maps and stabilizer lists, trace validated by TLC"),
 }
 
 def main():
